@@ -200,7 +200,7 @@ def run(tier: str, seed: int):
               f'histories of one-level dict/OrderedDict/defaultdict (set/del/popitem/move_to_end/auto-insertion over 3 keys '
               f'of several pools) and deque(maxlen in 2,3,None: append/appendleft/rotate/pop/popleft) x none_is_leaf x '
               f"namespace in ['', NS] x mode",
-        exhaustive=(tier != 'quick' and False),
+        exhaustive=False,
         notes='behaviour of user unflatten functions is assumed (they rebuild what they are given); trees holding an '
               'optree.functools.partial are not evaluated under is_leaf_dictlike: that predicate makes the partial\'s '
               '`keywords` dict a leaf, and functools.partial itself copies / type-checks that argument, so neither leaf '
